@@ -107,7 +107,7 @@ def _ddp_rank(ds, torch, OM, S, seed, stops, rank, world):
     cfg = S["cfg"]
     dt = getattr(torch, cfg["param_dtype"])
     init = c06.init_params(torch, G, S, seed)
-    dcfg = lambda: ddp_config(ds, S["comm"], S["G"], S["communicate_params"])  # noqa
+    dcfg = lambda: ddp_config(ds, S["comm"], S.get("G_arg", S["G"]), S["communicate_params"])  # noqa
     names = lambda P: [(f"p{i}", p) for i, p in enumerate(P)]  # noqa
 
     def snap(opt, ps):
